@@ -100,12 +100,15 @@ pub fn run(tier: Tier) -> Report {
             let all: Vec<usize> = (0..=n).collect();
             let r = render(&pr.toks, Layout::Minimal, &all, &|g| format!(" c{}", g));
             evals.fetch_add(1, Ordering::Relaxed);
+            // (programs that contain the one gap class of the known finding are a class of their own)
+            let special = "ProcDecl:behind-the-last-variable-declaration-of-a-body-without-statements";
+            let agk = if all.iter().any(|g| owner_key(&pr, *g) == special) { "all-gaps-at-once:with-a-comment-behind-the-last-variable-declaration-of-a-body-without-statements" } else { "all-gaps-at-once" };
             match eval_text(&r.text) {
-                Ok(()) => out.push(("all-gaps-at-once".into(), false, None)),
+                Ok(()) => out.push((agk.into(), false, None)),
                 Err((kind, detail)) => out.push((
-                    "all-gaps-at-once".into(),
+                    agk.into(),
                     true,
-                    Some(Failure { key: format!("comment-{}:all-gaps-at-once", kind), case: json!({"text": r.text, "family": it.family}), detail }),
+                    Some(Failure { key: format!("comment-{}:{}", kind, agk), case: json!({"text": r.text, "family": it.family}), detail }),
                 )),
             }
             out
